@@ -352,4 +352,65 @@ Section AtR.
     intros H. unfold fit_log_likelihood, s_log_likelihood, log_likelihood_from.
     rewrite chi_squared_is_spec, noise_normalization_is_spec by exact H. rops. lra.
   Qed.
+
+  (* ---- derived maps *)
+  Lemma rff_length f : fit_okb f = true -> length (fit_residual_flux_fraction_map f) = length (data f).
+  Proof.
+    intros H. destruct (okb_lengths f H) as (HN & HM & HK & _). pose proof (residual_length f H) as HR.
+    pose proof (fit_data_length f) as HD.
+    unfold fit_residual_flux_fraction_map. destruct (use_mask f) eqn:U.
+    - unfold residual_flux_fraction_map_with_mask_from. rewrite map2w_length; specialize (HK eq_refl); rlia.
+    - unfold residual_flux_fraction_map_from. rewrite map2_length; rlia.
+  Qed.
+  (* residual flux fraction = residual / data; a zero denominator gives no number; masked pixels give 0 *)
+  Lemma rff_nth f i : fit_okb f = true -> (i < length (data f))%nat ->
+    nth i (fit_residual_flux_fraction_map f) None =
+    if excluded f i then Some 0 else if Reqb (s_data f i) 0 then None else Some (s_residual_flux_fraction f i).
+  Proof.
+    intros H Hi. destruct (okb_lengths f H) as (HN & HM & HK & _). pose proof (residual_length f H) as HR.
+    pose proof (fit_data_length f) as HD. pose proof (fit_data_nth f i Hi) as DN.
+    pose proof (residual_nth f i H Hi) as RN. unfold fit_residual_flux_fraction_map, s_residual_flux_fraction.
+    unfold excluded in *. destruct (use_mask f) eqn:U; cbn [andb] in *.
+    - unfold residual_flux_fraction_map_with_mask_from. specialize (HK eq_refl).
+      rw (nth_map2w (Some (@zero O)) (@divopt O) None 0 0); try rlia. tR. rewrite RN, DN.
+      destruct (nth i (mask f) true); [reflexivity|]. unfold divopt. rops. reflexivity.
+    - unfold residual_flux_fraction_map_from. rw (nth_map2 (@divopt O) None 0 0); try rlia. tR. rewrite RN, DN.
+      unfold divopt. rops. reflexivity.
+  Qed.
+  Lemma snr_length f : fit_okb f = true -> length (fit_signal_to_noise_map f) = length (data f).
+  Proof.
+    intros H. destruct (okb_lengths f H) as (HN & _). pose proof (fit_data_length f) as HD.
+    unfold fit_signal_to_noise_map. rewrite map2_length; rlia.
+  Qed.
+  (* signal to noise = data / noise with negative values clipped to zero, wherever the noise is positive
+     (the code does not mask this map) *)
+  Lemma snr_nth f i : fit_okb f = true -> (i < length (data f))%nat -> 0 < at_ (noise f) i ->
+    nth i (fit_signal_to_noise_map f) None = Some (s_signal_to_noise f i).
+  Proof.
+    intros H Hi Hp. destruct (okb_lengths f H) as (HN & _). pose proof (fit_data_length f) as HD.
+    pose proof (fit_data_nth f i Hi) as DN. unfold fit_signal_to_noise_map, s_signal_to_noise, at_ in *.
+    rw (nth_map2 (@snr_elem O) None 0 0); try rlia. tR. rewrite DN. unfold snr_elem. rops.
+    set (n := nth i (noise f) 0) in *.
+    assert (Hi' : 0 < / n) by (apply Rinv_0_lt_compat; exact Hp).
+    destruct (Reqb n 0) eqn:E1; rbool; [lra|].
+    unfold Rdiv. match goal with |- context [Rltb (?d * / n) 0] =>
+      destruct (Rltb (d * / n) 0) eqn:E2, (Rltb d 0) eqn:E3; rbool; try reflexivity; exfalso; nra end.
+  Qed.
+
+  (* ---- reduced chi-squared: the divisor is the number of fitted pixels *)
+  Lemma fit_pixels_length f : fit_okb f = true ->
+    length (fit_pixels f) = (length (mask f) - count_true (mask f))%nat.
+  Proof.
+    intros H. destruct (okb_lengths f H) as (_ & _ & _ & HS). unfold fit_pixels. destruct (use_mask f).
+    - apply unmasked_length.
+    - rewrite seq_length. symmetry. apply HS. reflexivity.
+  Qed.
+  Lemma reduced_chi_squared_is_spec f : fit_okb f = true ->
+    fit_reduced_chi_squared f =
+    if Nat.eqb (length (fit_pixels f)) 0 then Raise OtherException
+    else Ok (s_chi_squared f / INR (length (fit_pixels f))).
+  Proof.
+    intros H. unfold fit_reduced_chi_squared. rewrite <- (fit_pixels_length f H), (chi_squared_is_spec f H).
+    destruct (Nat.eqb _ 0); [reflexivity|]. rops. rewrite <- INR_IZR_INZ. reflexivity.
+  Qed.
 End AtR.
